@@ -59,7 +59,13 @@ Lookup == /\ pc = "lookup"
              ELSE res' = <<"IORegistryError", "no-function">> /\ pc' = "done"
           /\ UNCHANGED <<reg, order, req, fmt>>
 Invoke == /\ pc = "invoke" /\ res' = <<"invoked", Key(req.cls, req.method, fmt)>> /\ pc' = "done" /\ UNCHANGED <<reg, order, req, fmt>>
+(* ---- the table of formats shown to the user (get_formats): one row per format that has any entry for the class ---- *)
+Cols == <<"parse", "serialize", "read", "write", "identify">>
+FormatRows(table, c) == {<<f, [i \in 1..5 |-> Key(c, Cols[i], f) \in table]>> : f \in {k[3] : k \in {q \in table : q[1] = c}}}
+GetFormats(c) == /\ pc = "idle" /\ res' = <<"formats", FormatRows(reg, c)>> /\ pc' = "done"
+                 /\ req' = [NoReq EXCEPT !.cls = c, !.method = "get_formats"] /\ UNCHANGED <<reg, order, fmt>>
 Next == \/ \E k \in FullTable : RegisterDup(k) \/ RegisterNew(k)
+        \/ \E c \in Classes : GetFormats(c)
         \/ \E r \in Requests : Call(r)
         \/ NoFormat \/ Identify \/ Lookup \/ Invoke
 Spec == Init /\ [][Next]_vars
@@ -70,6 +76,8 @@ Done == pc = "done"
 TableOnlyGrows == [][reg \subseteq reg']_vars
 DupRefused == Done /\ res[1] = "ValueError" => res[2] \in reg
 (* the function invoked is the one registered for the class, the method asked for and the format given *)
+FormatsTableFaithful == Done /\ res[1] = "formats" =>
+                          \A f \in Formats, i \in 1..5 : (Key(req.cls, Cols[i], f) \in reg) <=> (\E row \in res[2] : row[1] = f /\ row[2][i])
 GivenFormatWins == Done /\ req.cls # None /\ req.format # None /\ res[1] = "invoked" => res[2] = Key(req.cls, req.method, req.format)
 (* ... or, without a format, a format that claims the file; when exactly one format claims it, that one - whatever the registration order *)
 IdentifiedClaims == Done /\ req.cls # None /\ req.format = None /\ res[1] = "invoked" =>
